@@ -471,6 +471,18 @@ struct TArgs {
   id: usize,
   logs: TLogs,
   limit: usize,
+  subject: SubjectThreads<i64, i32>,
+  probe: Arc<ProbeLog>,
+}
+
+enum THandle {
+  Normal(TaskHandle<NormalReturn<()>>),
+  Sub(TaskHandle<SubscribeReturn<SubscriberThreads<Probe>>>),
+}
+
+fn t_sub(a: TArgs) -> SubscribeReturn<SubscriberThreads<Probe>> {
+  t_note(&a, 0);
+  SubscribeReturn::new(a.subject.clone().actual_subscribe(Probe(a.probe.clone())))
 }
 
 fn t_note(a: &TArgs, seq: usize) {
@@ -518,9 +530,10 @@ impl Scenario for C19Threads {
     let n = rng.range(1, 3);
     let tasks: Vec<TaskSpec> = (0..n)
       .map(|_| TaskSpec {
-        kind: match rng.below(4) {
+        kind: match rng.below(6) {
           0 | 1 => Kind::Once,
           2 => Kind::Repeat { period_ms: 1, limit: rng.range(1, 3) as u32 },
+          3 | 4 => Kind::Sub,
           _ => Kind::Fut { polls: rng.below(3) as u32 },
         },
         delay_us: if rng.chance(1, 2) { None } else { Some(*rng.pick(&[0u32, 400, 1000])) },
@@ -542,7 +555,7 @@ impl Scenario for C19Threads {
     for t in &case.tasks {
       match t.kind {
         Kind::Repeat { period_ms, limit } if period_ms == 0 || limit > 5 => return Err("bad repeat".into()),
-        Kind::Sub | Kind::FutTimer { .. } => return Err("kind not used in thread arm".into()),
+        Kind::FutTimer { .. } => return Err("kind not used in thread arm".into()),
         _ => {}
       }
     }
@@ -551,18 +564,27 @@ impl Scenario for C19Threads {
     let logs: TLogs = Arc::new(Mutex::new((0..case.tasks.len()).map(|_| TTaskLog::default()).collect()));
     let ts = TSim::new(shr.clone(), &case.sched, 1, case.workers, 20_000);
     let sched = shared_sched();
-    let handles: Vec<Option<TaskHandle<NormalReturn<()>>>> = ts.with_pool(|| {
+    let mut subject = SubjectThreads::<i64, i32>::default();
+    let probes: Vec<Arc<ProbeLog>> = (0..case.tasks.len()).map(|_| ProbeLog::new(false)).collect();
+    let handles: Vec<Option<THandle>> = ts.with_pool(|| {
       case
         .tasks
         .iter()
         .enumerate()
         .map(|(k, spec)| {
-          let args = TArgs { id: k, logs: logs.clone(), limit: if let Kind::Repeat { limit, .. } = spec.kind { limit as usize } else { 0 } };
+          let args = TArgs {
+            id: k,
+            logs: logs.clone(),
+            limit: if let Kind::Repeat { limit, .. } = spec.kind { limit as usize } else { 0 },
+            subject: subject.clone(),
+            probe: probes[k].clone(),
+          };
           let delay = spec.delay_us.map(|d| Duration::from_micros(d as u64));
           Some(match &spec.kind {
-            Kind::Once => sched.schedule(OnceTask::new(t_once, args), delay),
-            Kind::Repeat { period_ms, .. } => sched.schedule(RepeatTask::new(Duration::from_millis(*period_ms as u64), t_repeat, args), delay),
-            Kind::Fut { polls } => sched.schedule(FutureTask::new(PendingK(*polls), t_fut, args), delay),
+            Kind::Once => THandle::Normal(sched.schedule(OnceTask::new(t_once, args), delay)),
+            Kind::Sub => THandle::Sub(sched.schedule(OnceTask::new(t_sub, args), delay)),
+            Kind::Repeat { period_ms, .. } => THandle::Normal(sched.schedule(RepeatTask::new(Duration::from_millis(*period_ms as u64), t_repeat, args), delay)),
+            Kind::Fut { polls } => THandle::Normal(sched.schedule(FutureTask::new(PendingK(*polls), t_fut, args), delay)),
             _ => unreachable!(),
           })
         })
@@ -585,7 +607,10 @@ impl Scenario for C19Threads {
           if let Some(h) = h {
             let sh = shared();
             let before = sh.stamp();
-            h.unsubscribe();
+            match h {
+              THandle::Normal(h) => h.unsubscribe(),
+              THandle::Sub(h) => h.unsubscribe(),
+            }
             let after = sh.stamp();
             logs.lock().unwrap()[k].cancel = Some((before, after));
           }
@@ -593,6 +618,11 @@ impl Scenario for C19Threads {
       }));
     }
     let rep = ts.run(bodies);
+    // everything has settled: a cancelled subscribing task must not have left its
+    // subscription behind
+    if rep.deadlock.is_none() && rep.panics.is_empty() && !rep.budget_overrun {
+      subject.next(77);
+    }
     let site = "scheduler(threads)".to_string();
     let mut violation = None;
     if let Some(d) = &rep.deadlock {
@@ -621,6 +651,8 @@ impl Scenario for C19Threads {
         if let Some((_, after)) = t.cancel {
           if let Some(r) = t.runs.iter().find(|r| r.0 > after) {
             violation = Some(Violation { rule: "c19.run-after-cancel".into(), site: site.clone(), detail: format!("task {} body started at stamp {} after unsubscribe() had returned at stamp {}", k, r.0, after) });
+          } else if !probes[k].events().is_empty() {
+            violation = Some(Violation { rule: "c19.delivery-after-cancel".into(), site: site.clone(), detail: format!("task {}: its handle was unsubscribed (returned at stamp {}), yet the subscription the task produced is still delivering: {:?}", k, after, probes[k].events()) });
           } else if let Some(r) = t.runs.iter().find(|r| r.0 < after && r.1 > after) {
             violation = Some(Violation { rule: "c19.running-after-cancel".into(), site: site.clone(), detail: format!("task {} body was still running (stamps {}..{}) when unsubscribe() returned at stamp {}", k, r.0, r.1, after) });
           }
